@@ -1,5 +1,7 @@
 //! C12 — new mnemonics carry exactly the OS entropy (library part; the CLI part runs under an LD_PRELOAD shim).
-use crate::entropy::{with_script, Answer};
+//! The scripted source is a continuous byte stream, so the oracle does not depend on how many requests of which size
+//! an implementation makes: the entropy must be the bytes handed out, in order, and a delivered failure must be an error.
+use crate::entropy::with_script;
 use explore::{filler_bytes, guard, panic_site, Ctx};
 use hdwallet::mnemonic::{Language, Mnemonic};
 use refmodel::bip39;
@@ -10,19 +12,19 @@ pub fn patterns(seed: u64) -> Vec<(&'static str, Vec<u8>)> {
     let count: Vec<u8> = (1..=64u8).collect();
     vec![("zeros", vec![0; 64]), ("ones", vec![0xff; 64]), ("counting", count.clone()), ("counting-complement", count.iter().map(|b| !b).collect()), ("filler", filler_bytes(seed, 0xC12, 64))]
 }
-pub fn check_random(ctx: &Ctx, sweep: &str, i: u64, len: usize, pat: &str, answers: Vec<Answer>) {
+pub fn check_random(ctx: &Ctx, sweep: &str, i: u64, len: usize, pat: &str, pattern: Vec<u8>, fail_at: Option<usize>, once: bool) {
     let supported = bip39::entropy_len_for_words(len);
-    let failing = matches!(answers.first(), Some(Answer::Fail) | None);
-    let replay = json!({"sweep": sweep, "index": i, "entry": "Mnemonic::random", "length": len, "entropy_script": format!("{:?}", answers.iter().map(|a| match a { Answer::Fail => "fail".to_string(), Answer::Bytes(b) => explore::hex(&b[..b.len().min(32)]) }).collect::<Vec<_>>())});
+    let replay = json!({"sweep": sweep, "index": i, "entry": "Mnemonic::random", "length": len, "entropy_stream_pattern": explore::hex(&pattern[..pattern.len().min(64)]), "fail_at_request": fail_at, "one_shot": once});
     ctx.sample(sweep, || replay.clone());
-    let (got, requests, handed) = with_script(answers, || guard(|| Mnemonic::random(Language::English, len).map(|m| (m.to_phrase(), m.mnemonic_length(), Mnemonic::from_phrase(m.to_phrase()).is_ok()))));
-    let shape = format!("len={},{pat}", match supported { Some(_) => len.to_string(), None => if len < 12 { "below-12".into() } else if len > 24 { "above-24".into() } else { "between".to_string() } });
+    let (got, requests, handed) = with_script(pattern, fail_at, once, || guard(|| Mnemonic::random(Language::English, len).map(|m| (m.to_phrase(), m.mnemonic_length(), Mnemonic::from_phrase(m.to_phrase()).is_ok()))));
+    let delivered = requests.iter().any(|r| !r.1);
+    let shape = format!("len={},{pat}{}", match supported { Some(_) => len.to_string(), None => if len < 12 { "below-12".into() } else if len > 24 { "above-24".into() } else { "between".to_string() } }, if delivered { ",failure-delivered" } else { "" });
     match got {
         Err(p) => { ctx.eval(format!("{shape}:panic")); ctx.panic_violation(format!("{P}:random:{shape}:panic@{}", panic_site(&p)), format!("generation panics: {p}"), replay) }
-        Ok(Err(_)) => { ctx.eval(format!("{shape}:error")); if supported.is_some() && !failing { ctx.violation(format!("{P}:random:{shape}:error"), "generation of a supported length fails although the entropy source answered", replay) } }
-        Ok(Ok((phrase, mlen, parses))) => { ctx.eval(format!("{shape}:phrase,requests={:?}", requests));
+        Ok(Err(_)) => { ctx.eval(format!("{shape}:error")); if supported.is_some() && !delivered { ctx.violation(format!("{P}:random:{shape}:error"), "generation of a supported length fails although the entropy source answered every request", replay) } }
+        Ok(Ok((phrase, mlen, parses))) => { ctx.eval(format!("{shape}:phrase,requests={:?}", requests.iter().map(|r| r.0).collect::<Vec<_>>()));
             if supported.is_none() { ctx.violation(format!("{P}:random:{shape}:generated"), format!("an unsupported length yields the phrase '{phrase}'"), replay); return; }
-            if failing { ctx.violation(format!("{P}:random:{shape}:phrase-despite-failure"), "a phrase is produced although the entropy source reported failure", replay); return; }
+            if delivered { ctx.violation(format!("{P}:random:len={len},failure-delivered:phrase-despite-failure"), "a phrase is produced although the entropy source reported failure", replay); return; }
             let toks: Vec<&str> = phrase.split(' ').collect();
             match bip39::tokens_to_entropy(&toks) {
                 Err(e) => ctx.violation(format!("{P}:random:{shape}:invalid-phrase"), format!("generated phrase is not valid BIP-39: {e:?}"), replay),
@@ -35,23 +37,25 @@ pub fn check_random(ctx: &Ctx, sweep: &str, i: u64, len: usize, pat: &str, answe
     }
 }
 pub fn run(ctx: &Ctx) {
-    let pats = patterns(ctx.seed);
-    ctx.sweep("length-x-pattern", "requested lengths 0..=40 x 5 byte patterns (00, ff, counting, its complement, filler) returned by the scripted source", (41 * pats.len()) as u64, |i| {
+    let mut pats: Vec<(String, Vec<u8>)> = patterns(ctx.seed).into_iter().map(|(n, b)| (n.to_string(), b)).collect();
+    if ctx.thorough() { for b in 0..=255u8 { pats.push((format!("fill-{:02x}", b), vec![b; 64])); pats.push((format!("ramp-from-{:02x}", b), (0..64u8).map(|i| b.wrapping_add(i.wrapping_mul(3))).collect())); } }
+    ctx.sweep("length-x-pattern", "requested lengths 0..=40 x byte patterns (00, ff, counting, its complement, filler; thorough: every fill byte and 256 ramps) streamed by the scripted source", (41 * pats.len()) as u64, |i| {
         let len = (i as usize) / pats.len(); let (pn, pb) = &pats[i as usize % pats.len()];
-        check_random(ctx, "length-x-pattern", i, len, pn, vec![Answer::Bytes(pb.clone()), Answer::Bytes(vec![0x5a; 64])]);
+        check_random(ctx, "length-x-pattern", i, len, pn, pb.clone(), None, false);
     });
-    ctx.sweep("failure-injection", "the entropy source fails at the first request, for every length 0..=40", 41, |i| check_random(ctx, "failure-injection", i, i as usize, "source-fails", vec![Answer::Fail]));
+    ctx.sweep("failure-injection", "request k of the source fails (k = 0..=3, persistent and one-shot) for every length 0..=40: a delivered failure must be an error", 41 * 8, |i| {
+        check_random(ctx, "failure-injection", i, (i / 8) as usize, "source-fails", (1..=251u8).collect(), Some(((i % 8) / 2) as usize), i % 2 == 1)
+    });
     let bits: Vec<(usize, usize, bool)> = [12usize, 15, 18, 21, 24].iter().flat_map(|l| (0..l * 4 / 3 * 8).flat_map(move |b| [(*l, b, false), (*l, b, true)])).collect();
-    ctx.sweep("single-bit-entropy", "every single set / cleared bit of the entropy returned by the source, five supported lengths", bits.len() as u64, |i| {
+    ctx.sweep("single-bit-entropy", "every single set / cleared bit of the entropy streamed by the source, five supported lengths", bits.len() as u64, |i| {
         let (len, b, inv) = bits[i as usize]; let mut e = vec![if inv { 0xffu8 } else { 0 }; 64]; e[b / 8] ^= 0x80 >> (b % 8);
-        check_random(ctx, "single-bit-entropy", i, len, if inv { "one-bit-cleared" } else { "one-bit-set" }, vec![Answer::Bytes(e)]);
+        check_random(ctx, "single-bit-entropy", i, len, if inv { "one-bit-cleared" } else { "one-bit-set" }, e, None, false);
     });
-    ctx.sweep("consecutive-generations", "two generations in a row with different answers: the second phrase carries the second answer", 5, |i| {
-        let len = [12usize, 15, 18, 21, 24][i as usize];
-        let a = filler_bytes(ctx.seed, 1, 64); let b = filler_bytes(ctx.seed, 2, 64);
-        let ((p1, p2), _, _) = with_script(vec![Answer::Bytes(a.clone()), Answer::Bytes(b.clone())], || { let x = guard(|| Mnemonic::random(Language::English, len).map(|m| m.to_phrase()).ok()); let y = guard(|| Mnemonic::random(Language::English, len).map(|m| m.to_phrase()).ok()); (x, y) });
-        let e = len * 4 / 3; ctx.eval("consecutive");
-        let ok = p1 == Ok(Some(bip39::entropy_to_phrase(&a[..e]))) && p2 == Ok(Some(bip39::entropy_to_phrase(&b[..e])));
-        if !ok { ctx.violation(format!("{P}:random:len={len},consecutive:repeated-or-derived"), "two consecutive generations do not carry their own answers of the entropy source", json!({"sweep": "consecutive-generations", "index": i, "length": len})) }
+    ctx.sweep("consecutive-generations", "two generations in a row on one stream of all-distinct bytes: the second phrase carries the bytes that follow those of the first", 5, |i| {
+        let len = [12usize, 15, 18, 21, 24][i as usize]; let e = len * 4 / 3; let stream: Vec<u8> = (1..=200u8).collect();
+        let ((p1, p2), _, handed) = with_script(stream, None, false, || { let x = guard(|| Mnemonic::random(Language::English, len).map(|m| m.to_phrase()).ok()); let y = guard(|| Mnemonic::random(Language::English, len).map(|m| m.to_phrase()).ok()); (x, y) });
+        ctx.eval("consecutive");
+        let ok = handed.len() >= 2 * e && p1 == Ok(Some(bip39::entropy_to_phrase(&handed[..e]))) && p2 == Ok(Some(bip39::entropy_to_phrase(&handed[handed.len() - e..]))) && handed[..e] != handed[handed.len() - e..];
+        if !ok { ctx.violation(format!("{P}:random:len={len},consecutive:repeated-or-derived"), "two consecutive generations do not carry their own, consecutive bytes of the entropy source", json!({"sweep": "consecutive-generations", "index": i, "length": len})) }
     });
 }
